@@ -76,6 +76,20 @@ func c20msgs() []catItem {
 	add("MsgDAOBurn", govTypes.MsgDAOTransfer{FromAddress: a20, Amount: sdk.NewInt(3), Action: govTypes.DAOBurnString})
 	add("MsgUpgrade", govTypes.MsgUpgrade{Address: a20, Upgrade: govTypes.NewUpgrade(100, "1.2.3")})
 	add("MsgUpgrade/zero", govTypes.MsgUpgrade{Address: a20, Upgrade: govTypes.NewUpgrade(0, "")})
+	// twins that differ from a message above in exactly one address field (sign bytes must tell them apart)
+	b20, z20 := chain.Addr(7), sdk.Address(make([]byte, 20))
+	add("MsgUpgrade/other-sender", govTypes.MsgUpgrade{Address: b20, Upgrade: govTypes.NewUpgrade(100, "1.2.3")})
+	add("MsgDAOBurn/with-recipient", govTypes.MsgDAOTransfer{FromAddress: a20, ToAddress: chain.Addr(3), Amount: sdk.NewInt(3), Action: govTypes.DAOBurnString})
+	add("MsgDAOBurn/other-recipient", govTypes.MsgDAOTransfer{FromAddress: a20, ToAddress: b20, Amount: sdk.NewInt(3), Action: govTypes.DAOBurnString})
+	add("MsgDAOBurn/other-sender", govTypes.MsgDAOTransfer{FromAddress: b20, Amount: sdk.NewInt(3), Action: govTypes.DAOBurnString})
+	add("MsgSend/other-to", posTypes.MsgSend{FromAddress: a20, ToAddress: b20, Amount: sdk.OneInt()})
+	add("MsgSend/zero-address-to", posTypes.MsgSend{FromAddress: a20, ToAddress: z20, Amount: sdk.OneInt()})
+	add("MsgBeginUnstake/other", posTypes.MsgBeginUnstake{Address: b20})
+	add("MsgBeginUnstake/zero-address", posTypes.MsgBeginUnstake{Address: z20})
+	add("MsgUnjail/other", posTypes.MsgUnjail{ValidatorAddr: b20})
+	add("MsgChangeParam/other-sender", govTypes.MsgChangeParam{FromAddress: b20, ParamKey: "pos/StakeMinimum", ParamVal: []byte(`"17"`)})
+	add("MsgChangeParam/other-key", govTypes.MsgChangeParam{FromAddress: a20, ParamKey: "pos/StakeMinimuM", ParamVal: []byte(`"17"`)})
+	add("MsgChangeParam/other-val", govTypes.MsgChangeParam{FromAddress: a20, ParamKey: "pos/StakeMinimum", ParamVal: []byte(`"18"`)})
 	return items
 }
 
@@ -167,7 +181,8 @@ func c20storage() []catItem {
 	for _, x := range []sdk.Uint{sdk.ZeroUint(), sdk.NewUint(1<<64 - 1), sdk.NewUintFromBigInt(new(big.Int).Lsh(big.NewInt(1), 255)), sdk.NewUintFromBigInt(new(big.Int).Sub(new(big.Int).Lsh(big.NewInt(1), 256), big.NewInt(1)))} {
 		items = append(items, catItem{name: "Uint/" + x.String(), val: x})
 	}
-	items = append(items, catItem{name: "Address/20", val: chain.Addr(1)}, catItem{name: "Address/empty", val: sdk.Address{}})
+	items = append(items, catItem{name: "Address/20", val: chain.Addr(1)}, catItem{name: "Address/empty", val: sdk.Address{}},
+		catItem{name: "Address/20-zero-bytes", val: sdk.Address(make([]byte, 20))}, catItem{name: "Address/20-FF-bytes", val: sdk.Address(bytes.Repeat([]byte{0xFF}, 20))})
 	items = append(items, catItem{name: "PublicKey/ed", val: chain.Pub(1), iface: (*crypto.PublicKey)(nil)}, catItem{name: "PublicKey/secp", val: chain.Pub(100), iface: (*crypto.PublicKey)(nil)},
 		catItem{name: "PublicKey/multi", val: mustMulti(chain.Pub(1), chain.Pub(100)).(crypto.PublicKeyMultiSignature), iface: (*crypto.PublicKey)(nil)})
 	return items
